@@ -3,7 +3,7 @@
 use crate::common::*;
 use cteepbd::*;
 
-const MIXES: [&str; 15] = ["elpv", "hp", "hppv", "st", "red1", "bio", "bionrb", "biored1", "bioout", "nodem", "zerodem", "biogas", "bioout2", "elpvaux", "hppvaux"];
+const MIXES: [&str; 16] = ["elpv", "hp", "hppv", "st", "red1", "bio", "bionrb", "biored1", "bioout", "nodem", "zerodem", "biogas", "bioout2", "elpvaux", "hppvaux", "bio2sys"];
 
 pub fn units(tier: &str, _seed: u64) -> Vec<String> {
     let mut v = vec![];
@@ -19,6 +19,9 @@ pub fn units(tier: &str, _seed: u64) -> Vec<String> {
     for m in ["elpv", "hp", "st", "bionrb"] {
         v.push(unit(&[("mix", m), ("n", "1"), ("extra", "nepb")]));
         v.push(unit(&[("mix", m), ("n", "1"), ("extra", "calgas")]));
+    }
+    for m in ["elpvaux", "hp"] {
+        v.push(unit(&[("mix", m), ("n", "1"), ("extra", "nepbsame"), ("bud", "60")]));
     }
     // the boiler whose output is declared also heats (same system id: consumption and output of another service)
     v.push(unit(&[("mix", "bioout"), ("n", "1"), ("extra", "samesys")]));
@@ -153,6 +156,18 @@ fn build(mix: &str, n: usize, extra: &str) -> (String, Option<F>) {
             s.push_str(&format!("CONSUMO, ACS, ELECTRICIDAD, {}\nDEMANDA, ACS, {}\n", row("el"), (0..n).map(|_| "0.0".to_string()).collect::<Vec<_>>().join(", ")));
             None
         }
+        // two biomass boilers next to gas, only one of them with its output declared: still not computable
+        "bio2sys" => {
+            s.push_str(&format!(
+                "2, CONSUMO, ACS, BIOMASA, {}\n2, SALIDA, ACS, {}\n7, CONSUMO, ACS, BIOMASADENSIFICADA, {}\n-1, CONSUMO, ACS, GASNATURAL, {}\nDEMANDA, ACS, {}\n",
+                row("bm"),
+                rowf(&|t| k(0.8) * e("bm", t)),
+                row("b2"),
+                row("gn"),
+                rowf(&|t| k(0.8) * (e("bm", t) + e("b2", t)) + k(0.9) * e("gn", t))
+            ));
+            None
+        }
         "biogas" => {
             s.push_str(&format!("CONSUMO, ACS, BIOMASA, {}\nCONSUMO, ACS, GASNATURAL, {}\nDEMANDA, ACS, {}\n", row("bm"), row("gn"), rowf(&|t| k(0.8) * e("bm", t) + k(0.9) * e("gn", t))));
             None
@@ -164,6 +179,10 @@ fn build(mix: &str, n: usize, extra: &str) -> (String, Option<F>) {
     }
     if extra == "calgas" || extra == "both" {
         s.push_str(&format!("CONSUMO, CAL, GASOLEO, {}\n", row("xc")));
+    }
+    if extra == "nepbsame" {
+        // non-EPB consumption declared under the id of the DHW system itself
+        s.push_str(&format!("1, CONSUMO, NEPB, GASNATURAL, {}\n", row("xn")));
     }
     if extra == "samesys" {
         s.push_str(&format!("3, CONSUMO, CAL, BIOMASA, {}\n3, SALIDA, CAL, {}\n", row("xb"), rowf(&|t| k(0.75) * e("xb", t))));
